@@ -567,8 +567,16 @@ func (w *world) finish(acc map[int]bool) *outcome {
 	}
 	w.mu.Lock()
 	defer w.mu.Unlock()
-	return &outcome{Case: w.c, Log: append([]Event(nil), w.log...), Hangs: w.hangs, Panics: w.panics,
-		CtxErrs: w.ctxErrs, Armed: w.armedSeen, Accepted: acc}
+	armed := map[int]bool{}
+	for k, v := range w.armedSeen {
+		armed[k] = v
+	}
+	accepted := map[int]bool{}
+	for k, v := range acc {
+		accepted[k] = v
+	}
+	return &outcome{Case: w.c, Log: append([]Event(nil), w.log...), Hangs: append([]string(nil), w.hangs...),
+		Panics: append([]string(nil), w.panics...), CtxErrs: w.ctxErrs, Armed: armed, Accepted: accepted}
 }
 
 func runCase(c Case) *outcome {
@@ -836,6 +844,12 @@ func runRCM(c Case) *outcome {
 	if c.Grace == "generous" && len(live) > 0 {
 		w.tick(3)
 	}
+	var tieDone chan struct{}
+	defer func() {
+		if tieDone != nil {
+			<-tieDone // the racing tick must not outlive the case
+		}
+	}()
 	for idx, j := range live {
 		last := idx == len(live)-1
 		switch c.Grace {
@@ -856,7 +870,8 @@ func runRCM(c Case) *outcome {
 			}
 		case "tie":
 			if last {
-				go w.tick(graceUnits)
+				tieDone = make(chan struct{})
+				go func() { defer close(tieDone); w.tick(graceUnits) }()
 			}
 		}
 		w.release(w.cTok[j])
@@ -877,6 +892,9 @@ func runRCM(c Case) *outcome {
 		if !w.waitCall(x, x.kind+" did not return after Run finished") {
 			return w.finish(acc)
 		}
+	}
+	if tieDone != nil {
+		<-tieDone
 	}
 	if c.Grace == "late" || c.Grace == "tie" {
 		w.tick(graceUnits) // after the end: the timer must have been stopped / consumed
@@ -933,11 +951,13 @@ func runACRace(c Case) *outcome {
 		return w.finish(acc)
 	}
 	// if B was accepted in time its closer runs and needs its token
+	stopFeed, feedDone := make(chan struct{}), make(chan struct{})
+	defer func() { close(stopFeed); <-feedDone }() // runs before cleanup closes the token channels
 	go func() {
-		defer func() { recover() }() // the token channel is closed by cleanup
+		defer close(feedDone)
 		select {
 		case w.cTok[0] <- struct{}{}:
-		case <-time.After(waitTO):
+		case <-stopFeed:
 		}
 	}()
 	if !w.waitCall(run, "Run did not return") {
